@@ -188,7 +188,12 @@ mpz_inp_raw(mpz_ptr x, FILE *fp)
     if (out->writtenSize != 0)
     {
         if (fread(out->written, out->writtenSize, 1, fp) != 1)
+        {
+            /* body not (completely) read: mpz_inp_raw_p already set SIZ(x) over limbs that
+               were never filled in; leave x as a well formed zero instead */
+            SIZ(x) = 0;
             return 0;
+        }
 
         mpz_inp_raw_m(x, out);
     }
